@@ -73,7 +73,7 @@ type WNet struct {
 	Trunc        float64   `json:"trunc,omitempty"`
 	FaultUntilMS int64     `json:"fault_until_ms,omitempty"` // lazy faults only before this time (0 = always)
 	Explicit     bool      `json:"explicit"`
-	MTU          [2]int    `json:"mtu,omitempty"` // datagrams larger than this vanish (0 = none)
+	MTU          [2]int    `json:"mtu,omitempty"`     // datagrams larger than this vanish (0 = none)
 	AltMTU       int       `json:"alt_mtu,omitempty"` // the same on the client's other paths only: from and to its second interface, and towards its address after a NAT rebinding
 	Outages      []WOutage `json:"outages,omitempty"`
 	RebindAtOrd  int       `json:"rebind_at,omitempty"` // from this client datagram on, the client's source address changes
